@@ -22,6 +22,7 @@ RULE = ('interval goals: one per (case, target) for calc_smooth_fa_spectrum (exp
         'calc_smoothing_matrix_konno_1998; 4-31 non-zero Fourier frequencies (uniform FFT grids and irregular ascending ones), 1-12 targets inside / outside / exactly on the grid, '
         'band in {5,20,40,100} and non-integer bands in [5,100]; tolerance 1e-10 x max|amplitude| (1e-10 absolute for matrix entries). '
         'vm_compute cases on implementation outputs: weights in [0,1], column sums 1, matrix form = direct form = Q dot product, min <= smoothed <= max, |alpha| scaling, constant reproduced (1e-11 relative); '
+        'the same matrix form = direct form case on the SECOND of two consecutive smoothings (direct calls, and two Signal objects with the same dt/npts) with the same Fourier grid and band and target grids of equal length and end points but different interior (geometric / linear); '
         'bandwidth limits (calc_bandwidth_freqs/f_min/f_max, get_sig_freq_range) compared exactly on integer/dyadic spectra through a stub object and on real AccSignal spectra '
         '(a case whose float threshold product decides a comparison differently from exact arithmetic is counted fragile and skipped); '
         'non-trivial = at least 3 non-zero frequencies and a non-constant |spectrum| (smoothing), or some but not all samples above the limit (bandwidth)')
@@ -515,6 +516,76 @@ def run(rep, rng, tier):
             continue
         kcase(0, site, args, {'direct': list(map(float, d)), 'custom_matrix': list(map(float, mm))}, True, site,
               a=np.abs(s.fa_spectrum), cols=np.asarray(M, float).T, d=d, m=mm)
+
+    # ---- (K) call histories: two consecutive smoothings whose Fourier grids and band are the same and whose target grids have the
+    # same number of points and exactly equal first and last value but different interior points (geometric, then linear): each
+    # result is the weighted mean for ITS OWN targets (direct calls; and two Signal objects with the same dt / number of samples)
+    def twin_targets(lo, hi, n):
+        t1, t2 = np.geomspace(lo, hi, n), np.linspace(lo, hi, n)
+        t1[0] = t2[0] = lo
+        t1[-1] = t2[-1] = hi
+        return t1, t2
+
+    for c in range(8 if quick else 80):
+        obj = c % 2 == 1
+        n = rng.randint(3, 10)
+        b = make_band(rng) if not obj else 40
+        if not obj:
+            kind = rng.choice([0, 5])
+            F = fft_grid(rng) if kind == 0 else fft_grid(rng)[1:]
+            nz = F[F != 0]
+            lo, hi = float(nz[0]) * rng.uniform(0.5, 2.0), float(nz[-1]) * rng.uniform(0.4, 1.5)
+            T1, T2 = twin_targets(lo, hi, n)
+            if c % 4 == 2:
+                T1, T2 = T2, T1
+            A1, A = make_amps(rng, len(F)), make_amps(rng, len(F))
+            site = 'matrix_vs_direct[%s; second call, targets with the same length and end points as the first call]' % ('zero_bin' if kind == 0 else 'no_zero_bin')
+            args = {'fa_frequencies': list(map(float, F)), 'smooth_fa_frequencies': list(map(float, T2)), 'band': b,
+                    'fa_spectrum': [complex(a) if np.iscomplexobj(A) else float(a) for a in A],
+                    'history': ['calc_smooth_fa_spectrum(fa_frequencies, first_fa_spectrum, first_smooth_fa_frequencies, band)', 'calc_smooth_fa_spectrum(fa_frequencies, fa_spectrum, smooth_fa_frequencies, band)'],
+                    'first_smooth_fa_frequencies': list(map(float, T1)), 'first_fa_spectrum': [complex(a) if np.iscomplexobj(A1) else float(a) for a in A1]}
+
+            def build():
+                fq.calc_smooth_fa_spectrum(F.copy(), A1.copy(), T1.copy(), band=b)
+                d = fq.calc_smooth_fa_spectrum(F.copy(), A.copy(), T2.copy(), band=b)
+                M = fq.calc_smoothing_matrix_konno_1998(F.copy(), T2.copy(), band=b)
+                mm = fq.calc_smooth_fa_spectrum_w_custom_matrix(Stub(fa_spectrum=A.copy()), M) if kind == 0 else []
+                return mod(A), M, mm, d
+        else:
+            kind = 0
+            npts = rng.choice([16, 33, 64, 100])
+            dt = rng.choice([0.01, 0.02, 0.005])
+            v1, _ = gens.float_record(rng, npts)
+            v2, _ = gens.float_record(rng, npts)
+            cls1, cls2 = [(eqsig.AccSignal, eqsig.AccSignal), (eqsig.Signal, eqsig.AccSignal), (eqsig.AccSignal, eqsig.Signal)][(c // 2) % 3]
+            F = np.array(cls2(v2.copy(), dt).fa_frequencies, dtype=float)
+            lo, hi = float(F[1]) * rng.uniform(0.5, 2.0), float(F[-1]) * rng.uniform(0.4, 1.5)
+            T1, T2 = twin_targets(lo, hi, n)
+            if c % 4 == 3:
+                T1, T2 = T2, T1
+            site = 'matrix_vs_direct[Signal; another Signal with the same dt/npts smoothed before on targets with the same length and end points]'
+            args = {'values': list(map(float, v2)), 'dt': dt, 'class': cls2.__name__, 'smooth_fa_frequencies': list(map(float, T2)),
+                    'history': ['%s(first_values, dt, smooth_fa_freqs=first_smooth_fa_frequencies).smooth_fa_spectrum' % cls1.__name__,
+                                '%s(values, dt, smooth_fa_freqs=smooth_fa_frequencies).smooth_fa_spectrum' % cls2.__name__],
+                    'first_values': list(map(float, v1)), 'first_smooth_fa_frequencies': list(map(float, T1))}
+
+            def build():
+                s1 = cls1(v1.copy(), dt, smooth_fa_freqs=T1.copy())
+                _ = np.array(s1.smooth_fa_spectrum)
+                s2 = cls2(v2.copy(), dt, smooth_fa_freqs=T2.copy())
+                d = np.array(s2.smooth_fa_spectrum)
+                M = fq.calc_smoothing_matrix_konno_1998(s2.fa_frequencies, s2.smooth_fa_frequencies)
+                return np.abs(s2.fa_spectrum), M, fq.calc_smooth_fa_spectrum_w_custom_matrix(s2, M), d
+        r = guarded(build)
+        if isinstance(r, ImplError):
+            viol(site, args, r)
+            continue
+        am, M, mm, d = r
+        if not (np.all(np.isfinite(M)) and np.all(np.isfinite(d)) and np.all(np.isfinite(mm))):
+            rep.violation(site, {'function': site, 'args': args, 'impl': {'direct': repr(d)}, 'expected': 'finite values'})
+            continue
+        kcase(kind, site, args, {'direct': list(map(float, d)), 'custom_matrix': list(map(float, mm))},
+              len(set(np.abs(am[1:] if kind == 0 else am))) > 1, site, a=am, cols=np.asarray(M, float).T, d=d, m=mm)
 
     # ---- (K) bandwidth limits
     def bw_fragile(s, lim_float, lim_exact):
